@@ -22,6 +22,9 @@ pub struct Case {
     pub at: usize,
     pub cmds: Vec<String>,
     pub schedule: Vec<u16>,
+    /// conflict strategy of database d ("" = the default, "newer": a stale write wins or loses by time instead of being refused)
+    #[serde(default)]
+    pub d_strategy: String,
     /// node on which an arbiter client of database r stays connected during the commands (None = no arbiter connected)
     #[serde(default)]
     pub arbiter_at: Option<usize>,
@@ -58,7 +61,7 @@ pub fn run_case(ctx: &Ctx, case: &Case) -> Outcome {
         }
     };
     let auth = format!("auth {} {}", crate::node::USER, crate::node::PWD);
-    c.client(0, vec![auth.clone(), "create-db d tok".into(), "use-db d tok".into(), "set a a0".into(), "set a a1".into(), "set n 5".into()]);
+    c.client(0, vec![auth.clone(), format!("create-db d tok {}", case.d_strategy).trim_end().to_string(), "use-db d tok".into(), "set a a0".into(), "set a a1".into(), "set n 5".into()]);
     // an arbiter database with one pending conflict
     c.client(0, vec![auth.clone(), "create-db r rtok arbiter".into(), "use-db r rtok".into(), "set k k0".into(), "set k k1".into(), "arbiter".into(), "set-safe k 0 loser".into()]);
     let mut fail: Option<(String, String)> = None;
@@ -205,19 +208,23 @@ fn all_single() -> Vec<Case> {
         for at in 0..n {
             for cmd in commands() {
                 for schedule in [vec![], vec![40000u16, 0, 0, 20000, 0, 65535, 0, 0, 30000, 0, 0, 0, 50000]] {
-                    v.push(Case { n, at, cmds: vec![cmd.to_string()], schedule, arbiter_at: None, elect_at: None });
+                    v.push(Case { n, at, cmds: vec![cmd.to_string()], schedule, arbiter_at: None, elect_at: None, d_strategy: String::new() });
                 }
             }
             // the replicated commands after a forced election at each node
             for e in 0..n {
                 for cmd in ["set a v", "increment n 2", "remove a", "set-safe a 1 v", "create-user u utok", "snapshot false"] {
-                    v.push(Case { n, at, cmds: vec![cmd.to_string()], schedule: vec![], arbiter_at: None, elect_at: Some(e) });
+                    v.push(Case { n, at, cmds: vec![cmd.to_string()], schedule: vec![], arbiter_at: None, elect_at: Some(e), d_strategy: String::new() });
                 }
+            }
+            // the writes on a database whose conflicts are settled by time
+            for cmd in ["set a v", "set-safe a 1 v", "set-safe a 0 stale", "set-safe a 7 ahead", "increment n 2", "remove a"] {
+                v.push(Case { n, at, cmds: vec![cmd.to_string()], schedule: vec![], arbiter_at: None, elect_at: None, d_strategy: "newer".into() });
             }
             // conflicts found and resolved while an arbiter client is connected to each node
             for arb in 0..n {
                 for cmds in [vec!["CONFLICT"], vec!["RESOLVE"], vec!["CONFLICT", "CONFLICT"], vec!["CONFLICT", "RESOLVE"]] {
-                    v.push(Case { n, at, cmds: cmds.iter().map(|s| s.to_string()).collect(), schedule: vec![], arbiter_at: Some(arb), elect_at: None });
+                    v.push(Case { n, at, cmds: cmds.iter().map(|s| s.to_string()).collect(), schedule: vec![], arbiter_at: Some(arb), elect_at: None, d_strategy: String::new() });
                 }
             }
         }
@@ -229,7 +236,7 @@ pub fn run(ctx: &Ctx, rep: &mut Report) {
     enumerate(ctx, rep, "every-command-on-every-node", all_single().into_iter(), |c| run_case(ctx, c));
     if rep.failures.is_empty() {
         let n = ctx.amount(600, 20_000);
-        let strat = (2..4usize, 0..3usize, prop::collection::vec(select(commands()), 2..4), prop::collection::vec(prop_oneof![3 => Just(0u16), 1 => any::<u16>()], 0..40), prop_oneof![2 => Just(None), 1 => (0..3usize).prop_map(Some)], prop_oneof![3 => Just(None), 1 => (0..3usize).prop_map(Some)]).prop_map(|(n, at, cmds, schedule, arbiter_at, elect_at)| Case { n, at, cmds: cmds.into_iter().map(|s| s.to_string()).collect(), schedule, arbiter_at: if elect_at.is_some() { None } else { arbiter_at }, elect_at });
+        let strat = (2..4usize, 0..3usize, prop::collection::vec(select(commands()), 2..4), prop::collection::vec(prop_oneof![3 => Just(0u16), 1 => any::<u16>()], 0..40), prop_oneof![2 => Just(None), 1 => (0..3usize).prop_map(Some)], prop_oneof![3 => Just(None), 1 => (0..3usize).prop_map(Some)], select(vec!["", "", "newer"])).prop_map(|(n, at, cmds, schedule, arbiter_at, elect_at, d_strategy)| Case { n, at, cmds: cmds.into_iter().map(|s| s.to_string()).collect(), schedule, arbiter_at: if elect_at.is_some() { None } else { arbiter_at }, elect_at, d_strategy: d_strategy.to_string() });
         explore_with(ctx, rep, "command-sequences", n, 150, strat, |c| run_case(ctx, c));
     }
 }
